@@ -303,6 +303,7 @@ type Lemma struct {
 	Pkg    string
 	Axiom  bool // assumed, not proved (listed under A-fp / assumptions)
 	Uses   []string
+	BV     bool // proved in the theory of bit-vectors (parameters have fixed-width Go integer types)
 }
 
 type FuncContract struct {
@@ -323,6 +324,7 @@ type FuncContract struct {
 	Trusted   bool // contract is assumed, body not verified (listed as assumption)
 	Modifies  []Clause
 	ModGiven  bool
+	ModAssumed bool // the frame is assumed, not checked (listed as an assumption)
 	Sites     []Site
 	Covers    bool
 	CoverExc  []string // ret(X) exceptions
@@ -353,7 +355,7 @@ var clauseKeywords = map[string]bool{
 	"spec": true, "func": true, "extern": true, "lemma": true, "props": true, "requires": true,
 	"ensures": true, "nowrap": true, "nopanic": true, "theory": true, "inline": true, "pure": true,
 	"modifies": true, "site": true, "covers-nonnil-returns": true, "loop": true, "let": true,
-	"trusted": true, "effect-free": true, "inline-pkg": true, "replay": true, "load-pkg": true, "inline-func": true, "axiom": true, "uses": true,
+	"trusted": true, "effect-free": true, "inline-pkg": true, "replay": true, "load-pkg": true, "inline-func": true, "axiom": true, "uses": true, "modifies-assumed": true,
 }
 
 // ParseContractFile reads the //@ lines of a contract file and groups them into clauses.
@@ -439,6 +441,10 @@ func ParseContractFile(path, pkgPath string) (*ContractFile, error) {
 			}
 			head := strings.TrimSpace(rc.text[:j])
 			lm := &Lemma{Pkg: pkgPath, Axiom: rc.kw == "axiom"}
+			if strings.HasPrefix(head, "bv ") {
+				lm.BV = true
+				head = strings.TrimSpace(head[3:])
+			}
 			if k := strings.Index(head, "("); k >= 0 {
 				lm.Name = strings.TrimSpace(head[:k])
 				ps, err := parseSpecParams(strings.TrimSuffix(strings.TrimSpace(head[k+1:]), ")"))
@@ -559,8 +565,11 @@ func ParseContractFile(path, pkgPath string) (*ContractFile, error) {
 			cur.Replay = strings.TrimSpace(rc.text)
 		case "uses":
 			cur.Uses = append(cur.Uses, splitTopLevel(rc.text, ';')...)
-		case "modifies":
+		case "modifies", "modifies-assumed":
 			cur.ModGiven = true
+			if rc.kw == "modifies-assumed" {
+				cur.ModAssumed = true
+			}
 			if strings.TrimSpace(rc.text) != "nothing" {
 				for _, part := range splitTopLevel(rc.text, ',') {
 					c, err := mkClause(part, rc.line)
